@@ -125,6 +125,9 @@ type PipelineJob struct {
 	sched      *taskctl.Scheduler
 	taskRunner runner.Runner
 	startTimer *time.Timer
+	// cancelRequested is set when a cancel of the running job was acknowledged, so the job is reported
+	// as canceled when it completes - no matter what its tasks returned in the meantime
+	cancelRequested bool
 }
 
 func (j *PipelineJob) isRunning() bool {
@@ -500,8 +503,8 @@ func (r *PipelineRunner) JobCompleted(id uuid.UUID, err error) {
 	job.End = &now
 	job.LastError = err
 
-	// Set canceled flag on the job if a task was canceled through the context
-	if errors.Is(err, context.Canceled) {
+	// Set canceled flag on the job if a task was canceled through the context or a cancel of the job was acknowledged
+	if errors.Is(err, context.Canceled) || job.cancelRequested {
 		job.Canceled = true
 	}
 
@@ -984,6 +987,7 @@ func (r *PipelineRunner) cancelJobInternal(id uuid.UUID) error {
 	}
 
 	cancelFunc := job.sched.Cancel
+	job.cancelRequested = true
 
 	r.wg.Add(1)
 	go (func() {
